@@ -1,3 +1,14 @@
+/// True when the body of a choice is a divert and nothing that is ever reached after it: a
+/// divert that stands alone below the choice, or the divert written on the choice's own line
+/// (whatever lines follow that one belong to the choice too, but the flow has left by then).
+fn choice_body_is_divert(choice: &Choice) -> bool {
+    match choice.body.as_slice() {
+        [Node::Divert(_)] => true,
+        [Node::Divert(_), ..] => choice.body_divert_is_inline,
+        _ => false,
+    }
+}
+
 fn emit_choice(
     out: &mut EmittedContainer,
     choice: &Choice,
@@ -53,7 +64,7 @@ fn emit_choice(
 
         if choice.has_choice_only_content
             && !choice.has_start_content
-            && matches!(choice.body.as_slice(), [Node::Divert(_)])
+            && choice_body_is_divert(choice)
         {
             branch_nodes.extend(tokenize_inline_content(&format!(" {selected_text}"))?);
             if choice.body_divert_is_inline {
@@ -87,10 +98,10 @@ fn emit_choice(
             let body_is_terminal_divert = choice.body_divert_is_inline
                 && matches!(
                     choice.body.as_slice(),
-                    [Node::Divert(d)] if d.target == "END" || d.target == "DONE"
+                    [Node::Divert(d), ..] if d.target == "END" || d.target == "DONE"
                 );
             let body_is_inline_divert = choice.body_divert_is_inline
-                && matches!(choice.body.as_slice(), [Node::Divert(_)])
+                && choice_body_is_divert(choice)
                 && selected_text.ends_with(char::is_whitespace);
             if !body_is_terminal_divert && !body_is_inline_divert {
                 branch_nodes.push(Node::Newline);
@@ -98,7 +109,7 @@ fn emit_choice(
         }
     } else if choice.has_choice_only_content
         && !choice.has_start_content
-        && matches!(choice.body.as_slice(), [Node::Divert(_)])
+        && choice_body_is_divert(choice)
     {
         // choice-only with single divert body:
         // - inline divert (same line): "^ " then divert then "\n" (inklecate behavior)
